@@ -6,6 +6,7 @@ import (
 	"math/big"
 	"os"
 	"path/filepath"
+	"runtime/debug"
 	"sort"
 	"strings"
 	"sync"
@@ -87,6 +88,9 @@ func c19Specs(r *rng, p c19Prog, steps int, thorough bool) []c19SessSpec {
 	for i := range all {
 		all[i] = i + 1
 	}
+	if p.BPLines != nil {
+		all = p.BPLines
+	}
 	subset := func(src []int, pct int) []int {
 		var o []int
 		for _, l := range src {
@@ -108,6 +112,26 @@ func c19Specs(r *rng, p c19Prog, steps int, thorough bool) []c19SessSpec {
 			o = append(o, c19Req(r.pick([]string{"c", "i", "i", "o", "o", "u"})))
 		}
 		return o
+	}
+	if p.Conc && p.GoLit {
+		// A goroutine started from a function literal is not given a debug routine of its own (it goes
+		// through genFunctionWrapper, whose runCfg call does not carry the go statement): it shares
+		// routine 0 with main, so any stop races on the routine's state. Free runs only.
+		return []c19SessSpec{
+			{Kind: "conc:none/continue", Reqs: []c19Req{"c"}},
+			{Kind: "conc:invalid-line/continue", Lines: []int{999}, Reqs: []c19Req{"c"}},
+			{Kind: "conc:no-such-function/continue", Funcs: []string{"nosuch"}, Reqs: []c19Req{"c"}},
+		}
+	}
+	if p.Conc {
+		// the sessions drive goroutine 0 only: breakpoints and steps in the main goroutine
+		return []c19SessSpec{
+			{Kind: "conc:none/continue", Reqs: []c19Req{"c"}},
+			{Kind: "conc:main-lines/continue", Lines: all, Reqs: []c19Req{"c"}},
+			{Kind: "conc:marker-subset/continue", Lines: subset(p.Markers, 50), Reqs: []c19Req{"c"}},
+			{Kind: "conc:line-subset/mix", Lines: subset(all, 35), Reqs: mix(5+r.intn(30), false)},
+			{Kind: "conc:none/step-over", Reqs: c19Rep("o", 60)},
+		}
 	}
 	var funcs []string
 	for _, f := range p.Funcs {
@@ -167,20 +191,23 @@ func runC19(args []string) error {
 		return err
 	}
 	thorough := *tier == "thorough"
-	nMain, nWild, shards := 60, 12, 16
+	nMain, nWild, nConc, shards := 60, 12, 8, 16
 	if thorough {
-		nMain, nWild, shards = 1500, 300, 192
+		nMain, nWild, nConc, shards = 1500, 300, 150, 192
 	}
 	root := newRng(*seed)
 	sm := newSummary("C19")
 	distinct := distinctSet{}
-	timeout := 60 * time.Second
+	timeout := 40 * time.Second
 
 	// ------------------------------------------------------------ programs
 	var progs []c19Prog
 	progs = append(progs, c19Witnesses()...)
 	for i := 0; i < nMain+nWild; i++ {
 		progs = append(progs, c19Generate(root.fork(), i >= nMain))
+	}
+	for i := 0; i < nConc; i++ {
+		progs = append(progs, c19GenerateConc(root.fork()))
 	}
 	specRngs := make([]*rng, len(progs))
 	for i := range progs {
@@ -189,9 +216,9 @@ func runC19(args []string) error {
 
 	type progRes struct {
 		plainOut, plainEnd, plainRes string
-		g                            [2]*c19CFG
-		toks                         [2][]c19Tok
-		traceOut, traceEnd           [2]string
+		g                            [3]*c19CFG
+		toks                         [3][]c19Tok // by trace mode
+		traceOut, traceEnd           [3]string
 		cases                        []c19Case
 		skip                         string
 	}
@@ -202,7 +229,7 @@ func runC19(args []string) error {
 		var pr progRes
 		defer func() {
 			if e := recover(); e != nil {
-				pr.skip = fmt.Sprint("harness panic: ", e)
+				pr.skip = fmt.Sprint("harness panic: ", e, " ", string(debug.Stack()))
 			}
 			mu.Lock()
 			results[pi] = pr
@@ -213,22 +240,28 @@ func runC19(args []string) error {
 			pr.skip = "plain run: " + pr.plainEnd
 			return
 		}
-		// true operation sequences: without / with the closure generation order of SetBreakpoints
+		// true operation sequences, one per way of generating the closures: plain execution (the
+		// reference), ExecuteWithContext (what a debug session runs), the same after a line request
 		var steps int
-		var tg [2]*c19CFG
-		var traces [2][]c19StepT
+		var tg [3]*c19CFG
+		var traces [3][]c19StepT
 		tab := c19pcTab{}
-		for v := 0; v < 2; v++ {
-			st, dump, so, end := c19Trace(p.Src, v == 1, timeout)
-			if v == 0 && (so != pr.plainOut || end != pr.plainEnd) {
-				pr.skip = fmt.Sprintf("instrumented run differs from the plain run (%s vs %s)", end, pr.plainEnd)
-				return
-			}
-			pr.traceOut[v], pr.traceEnd[v] = so, end
-			tg[v] = c19MakeCFG(dump, c19pcTab{})
-			traces[v] = st
-			if len(st) > steps {
-				steps = len(st)
+		if !p.Conc {
+			for v := 0; v < 3; v++ {
+				st, dump, so, end := c19Trace(p.Src, v, timeout)
+				if v == c19TracePlain && (so != pr.plainOut || end != pr.plainEnd) {
+					pr.skip = fmt.Sprintf("instrumented run differs from the plain run (%s vs %s)", end, pr.plainEnd)
+					return
+				}
+				pr.traceOut[v], pr.traceEnd[v] = so, end
+				if dump == nil {
+					continue
+				}
+				tg[v] = c19MakeCFG(dump, c19pcTab{})
+				traces[v] = st
+				if len(st) > steps {
+					steps = len(st)
+				}
 			}
 		}
 		if steps > 2500 {
@@ -236,7 +269,7 @@ func runC19(args []string) error {
 			return
 		}
 		specs := c19Specs(specRngs[pi], p, steps, thorough)
-		if p.Tag != "gen" { // witnesses: fixed sessions
+		if p.Tag != "gen" && p.Tag != "conc" { // witnesses: fixed sessions
 			all := make([]int, p.NLines)
 			for i := range all {
 				all[i] = i + 1
@@ -246,7 +279,14 @@ func runC19(args []string) error {
 				{Kind: "markers/continue", Lines: p.Markers, Reqs: []c19Req{"c"}},
 				{Kind: "none/step-into", Reqs: c19Rep("i", steps+8)},
 			}
-			if p.Tag == "two-globals" {
+			if p.Tag == "selector-type-parameter" {
+				specs = []c19SessSpec{
+					{Kind: "none/continue", Reqs: []c19Req{"c"}},
+					{Kind: "functions/continue", Funcs: []string{"f"}, Reqs: []c19Req{"c"}},
+					{Kind: "one-line/continue", Lines: []int{6}, Reqs: []c19Req{"c"}},
+					{Kind: "invalid-line/continue", Lines: []int{999}, Reqs: []c19Req{"c"}},
+				}
+			} else if p.Tag == "two-globals" {
 				specs = []c19SessSpec{
 					{Kind: "none/continue", Reqs: []c19Req{"c"}},
 					{Kind: "functions/continue", Funcs: []string{"f1"}, Reqs: []c19Req{"c"}},
@@ -293,7 +333,12 @@ func runC19(args []string) error {
 				c.Fail = append(c.Fail, "session did not finish: "+s.Hang)
 			} else {
 				n := len(s.Events)
-				if n < 3 || s.Events[0].Reason != c19EnterG || s.Events[n-2].Reason != c19ExitG || s.Events[n-1].Reason != c19Terminate {
+				if p.Conc {
+					// the worker's EnterGoRoutine / ExitGoRoutine events interleave freely
+					if n < 3 || s.Events[0].Reason != c19EnterG || s.Events[n-1].Reason != c19Terminate {
+						c.Fail = append(c.Fail, "events do not start with EnterGoRoutine and end with Terminate")
+					}
+				} else if n < 3 || s.Events[0].Reason != c19EnterG || s.Events[n-2].Reason != c19ExitG || s.Events[n-1].Reason != c19Terminate {
 					c.Fail = append(c.Fail, "events are not framed by EnterGoRoutine ... ExitGoRoutine, Terminate")
 				}
 				for _, e := range s.Events[:max(n-1, 0)] {
@@ -317,7 +362,7 @@ func runC19(args []string) error {
 							got = append(got, e.Line)
 						}
 					}
-					if c19Ints(got) != c19Ints(c.Ref) {
+					if !p.Conc && c19Ints(got) != c19Ints(c.Ref) { // (no model labels the tracker's known losses for goroutine programs)
 						c.Fail = append(c.Fail, fmt.Sprintf("break events on marker lines %v, the output shows %v", got, c.Ref))
 					}
 				} else if !strings.HasPrefix(pr.plainOut, s.Stdout) {
@@ -342,26 +387,32 @@ func runC19(args []string) error {
 			// ---- model side: graph, tokens, region label
 			if s.Dump != nil {
 				g := c19MakeCFG(s.Dump, tab)
-				v := 0
+				v := c19TraceCtx
 				if len(sp.Lines) > 0 {
-					v = 1
+					v = c19TraceCtxPre
 				}
 				c.Toks = v
 				if pr.g[v] == nil {
 					pr.g[v] = g
 				}
 				switch {
-				case !c19SameShape(g, tg[v]) || !c19SameShape(g, pr.g[v]):
+				case p.Conc:
+					c.Skip = "goroutines are outside the model"
+				case tg[v] == nil || tg[c19TracePlain] == nil:
+					c.Skip = "no instrumented run: " + pr.traceEnd[v]
+				case !c19SameShape(g, tg[v]) || !c19SameShape(g, pr.g[v]) || !c19SameShape(g, tg[c19TracePlain]):
 					c.Skip = "graphs of two compilations differ"
 				case !c19SamePCs(g, pr.g[v]):
 					c.Skip = "closures differ between sessions"
 				default:
-					if pr.toks[v] == nil {
-						toks, ok, why := c19Tokens(traces[v], tg[v], g)
-						if !ok {
-							c.Skip = why
-						} else {
-							pr.toks[v] = toks
+					for _, w := range []int{c19TracePlain, v} {
+						if pr.toks[w] == nil && c.Skip == "" {
+							toks, ok, why := c19Tokens(traces[w], tg[w], g)
+							if !ok {
+								c.Skip = why
+							} else {
+								pr.toks[w] = toks
+							}
 						}
 					}
 				}
@@ -396,6 +447,9 @@ func runC19(args []string) error {
 				c.Ses.Dump = nil // keep the memory of a thorough run small
 			} else {
 				c.Skip = "no dump"
+				if p.HostPanic && len(sp.Lines) > 0 && strings.HasPrefix(s.Hang, "SetBreakpoints panicked") {
+					c.Region = "linebp-hostpanic"
+				}
 			}
 			pr.cases = append(pr.cases, c)
 		}
@@ -414,7 +468,7 @@ func runC19(args []string) error {
 			for _, c := range pr.cases {
 				x += 200 + len(c.Ses.Events) + len(pr.toks[c.Toks])
 			}
-			for v := 0; v < 2; v++ {
+			for v := 0; v < 3; v++ {
 				if pr.g[v] != nil {
 					x += 3 * len(pr.g[v].N)
 				}
@@ -460,7 +514,7 @@ func runC19(args []string) error {
 		}
 		sh := shardOf[pi]
 		b := &bodies[sh]
-		wroteToks := [2]bool{}
+		wroteToks := [3]bool{}
 		written := map[string]string{}
 		for ci := range pr.cases {
 			c := &pr.cases[ci]
@@ -491,6 +545,10 @@ func runC19(args []string) error {
 					Note: strings.Join(c.Fail, "; ")})
 				sm.count("reference-mismatch:" + c.Region)
 			}
+			if p.Conc {
+				sm.count("outside-model:goroutines")
+				continue
+			}
 			if c.Skip != "" {
 				sm.count("model-skipped")
 				sm.Notes = append(sm.Notes, fmt.Sprintf("session %d not evaluated in the model: %s", id, c.Skip))
@@ -510,13 +568,6 @@ func runC19(args []string) error {
 			}
 			if !wroteToks[0] {
 				wroteToks[0] = true
-				g0 := pr.g[0]
-				if g0 == nil {
-					g0 = g
-				}
-				nodesTxt := c19CoqNodes(g0, p)
-				fmt.Fprintf(b, "Definition p%d_0 := mk_nodes (%s)%%N.\n", pi, nodesTxt)
-				written[nodesTxt] = fmt.Sprintf("p%d_0", pi)
 				toksTxt := c19CoqToks(pr.toks[0])
 				fmt.Fprintf(b, "Definition a%d_0 := mk_acts (%s)%%N.\n", pi, toksTxt)
 				written[toksTxt] = fmt.Sprintf("a%d_0", pi)
